@@ -207,3 +207,4 @@ _extend("C18", [("c08", "r4_eligibility", (), ALL, "a record's own indels/noinde
 _extend("C09", [("c08", "r4_eligibility", (), ALL, "adapters that need the aligner (IUPAC wildcards, read wildcards) stay in the one-by-one search where the documented best-match rule applies"),
                 ("c18", "r4_precedence", (), ALL, "required/optional of a linked adapter's parts are its own: parameters of another specification do not leak into it"),
                 ("c03", "r5_actions", (), _has("times"), "actions that use the coordinates of the last match (retain, crop) are not combined with several rounds, whose later coordinates refer to an already trimmed read")])
+_extend("C15", [("c04", "r8_claimed_before_open", (), ALL, "no two demultiplexing writers (or a demultiplexing writer and another output) share a file")])
